@@ -56,6 +56,7 @@ BODY = [
     ("unnamed-optional", '<field type="char" optional="true">1</field>'),
     ("optional-without-name", '<field type="string" optional="true">ab</field>'),
     ("hardcoded-wrong-length", '<field type="string" length="3">ab</field>'),
+    ("hardcoded-shorter-than-padded-length", '<field type="string" length="4" padded="true">ab</field>'),
     ("hardcoded-wrong-length-named", '<field name="h" type="string" length="2">abc</field>'),
     ("hardcoded-on-struct", '<field name="c" type="S">x</field>'),
     ("hardcoded-on-blob", '<field type="blob">x</field>'),
@@ -87,6 +88,9 @@ BODY = [
     ("switch-on-bool", '<field name="k" type="bool"/><switch field="k"><case value="1"><field name="x" type="char"/></case></switch>'),
     ("switch-on-unknown-field", '<switch field="nofield"><case value="1"><field name="x" type="char"/></case></switch>'),
     ("switch-lone-default", '<field name="k" type="char"/><switch field="k"><case default="true"><field name="x" type="char"/></case></switch>'),
+    ("switch-default-first-with-other-cases", '<field name="k" type="char"/><switch field="k"><case default="true"><field name="x" type="char"/></case>'
+                                              '<case value="1"><field name="y" type="short"/></case></switch>'),
+    ("switch-empty-default-first", '<field name="k" type="char"/><switch field="k"><case default="true"/><case value="2"/></switch>'),
     ("switch-int-case-not-numeric", '<field name="k" type="char"/><switch field="k"><case value="A"><field name="x" type="char"/></case></switch>'),
     ("switch-enum-case-unknown-name", '<field name="k" type="E"/><switch field="k"><case value="Zed"><field name="x" type="char"/></case></switch>'),
     ("switch-enum-case-named-ordinal", '<field name="k" type="E"/><switch field="k"><case value="1"><field name="x" type="char"/></case></switch>'),
